@@ -1,6 +1,7 @@
 //! gth — the correspondence harness: generates inputs, runs the implementation (the current
 //! working tree of /repo), writes the inputs for the Coq model and the implementation's
 //! canonical results.
+mod families;
 mod gast;
 mod gen;
 mod genvalid;
